@@ -327,6 +327,17 @@ pub fn handmade_lzma2(r: &mut Rng, units: usize, chunks_per_unit: usize, chunk_l
 /// Data whose units are all distinct (unit index stamped every 64 bytes) so that reordering,
 /// duplication or loss of a unit always changes the bytes.
 pub fn stamped_data(r: &mut Rng, len: usize, unit: usize, compressible: bool) -> Vec<u8> {
+    if is_miri() {
+        // interpreter: a few long matches per unit instead of thousands of symbols
+        let unit = unit.max(1);
+        let mut v = vec![0x41u8; len];
+        let mut i = 0;
+        while i + 4 <= len {
+            v[i..i + 4].copy_from_slice(&((i / unit) as u32 ^ 0x5A5A_0000).to_le_bytes());
+            i += unit;
+        }
+        return v;
+    }
     let mut v = if compressible {
         let mut v = Vec::with_capacity(len);
         let words: [&[u8]; 6] = [b"alpha ", b"beta ", b"gamma ", b"delta ", b"epsilon ", b"\n"];
